@@ -4,7 +4,7 @@ package format
 
 // Contracts for the verification machinery in /verif (comment-only; see /verif/DESIGN.md).
 
-//@ property C16
+//@ property C16 C09
 
 // Text codec: bytes <-> string without transformation.
 //@ func (*textCodec).HandleRead
